@@ -17,4 +17,22 @@ while read -r k P name; do
     if [ $rc -ne 0 ]; then fail=$((fail+1)); echo "FAIL (rc=$rc) scenario $k '$name' on real MPI:"; echo "$out" | tail -5; else echo "$out" | grep -E "^PASS" ; fi
 done < <(build/realmpi/simtest_real --list)
 echo "[fidelity] $n scenarios on real Open MPI, $fail failed"
-[ $fail -eq 0 ]
+[ $fail -eq 0 ] || exit 1
+
+# ---- part 2: the documented workflow on the real stack (library from /repo/_build, rebuilt first), every rank compared with
+# its own MPI_COMM_SELF reference. These are the configurations that failed on the unchanged tree (zeros, throws, hang).
+if [ -d /repo/_build ]; then
+    cmake --build /repo/_build -j16 > build/realmpi/cmake.log 2>&1 || { echo "[fidelity] cmake --build /repo/_build failed"; tail -5 build/realmpi/cmake.log; exit 1; }
+    g++ -std=c++11 -fopenmp -O1 -I/repo/include -I/repo/_build/include -I/usr/include/eigen3 -I/usr/lib/x86_64-linux-gnu/openmpi/include harness/realmpi_workflow.cpp \
+        -o build/realmpi/realmpi_workflow -L/repo/_build -lpomerol -Wl,-rpath,/repo/_build -lboost_mpi -lboost_serialization -lmpi_cxx -lmpi 2> build/realmpi/build2.log || { echo "[fidelity] workflow driver build failed"; tail -20 build/realmpi/build2.log; exit 1; }
+    wf_fail=0; wf_n=0
+    for cfg in "1 1 1 0" "2 1 1 0" "2 2 1 0" "2 3 1 0" "2 3 0 0" "3 2 1 0" "4 2 1 0" "3 3 1 1" "5 3 1 1" "4 3 0 1" "7 2 1 1"; do
+        set -- $cfg
+        out=$(timeout 120 mpiexec --oversubscribe -np "$1" build/realmpi/realmpi_workflow "$2" "$3" "$4" 2>&1 < /dev/null); rc=$?
+        wf_n=$((wf_n+1))
+        if [ $rc -ne 0 ]; then wf_fail=$((wf_fail+1)); echo "FAIL (rc=$rc) real-MPI workflow np=$1 K=$2 split=$3 model=$4"; echo "$out" | tail -4; else echo "$out" | grep -E "^PASS"; fi
+    done
+    echo "[fidelity] $wf_n workflow configurations on real Open MPI, $wf_fail failed"
+    [ $wf_fail -eq 0 ] || exit 1
+fi
+exit 0
